@@ -35,6 +35,9 @@ Unstore(ids)  == /\ stored' = [r \in DOMAIN stored |-> IF Occ(ids, r) > Cnt(r) T
 NotFabricated(ids) == IdSet(ids) \subseteq submitted
 NotStoredTwice(ids) == \A r \in IdSet(ids) : Cnt(r) + Occ(ids, r) <= 1
 Duplicated(ids)    == {r \in IdSet(ids) : Cnt(r) + Occ(ids, r) > 1}
+\* an explicit flush is acknowledged as successful only if no storage write it issued failed (WAL disabled:
+\* the dropped rows have no other copy)
+FlushAckHonest(ok, failedRows, walOff) == ~(walOff /\ ok /\ failedRows # {})
 Missing            == {r \in acked : Cnt(r) = 0}
 AllAckedStored     == Missing = {}
 =============================================================================
